@@ -53,7 +53,10 @@ Section Layers.
             | STriple _ _ _ => flatten gradient
             | _ => Panic P_explicit
             end;
-    do der <- act_backward (d_act l) output;
+    do der <- (match d_act l with
+               | Softmax => ones N (tshape output)
+               | a => act_backward a output
+               end);
     do delta <- hadamard der g (scale (d_loops l));
     do wg <- product delta input;
     let bg := match d_bias l with Some _ => Some delta | None => None end in
@@ -69,8 +72,7 @@ Section Layers.
     match inputs with
     | SSingle size =>
         let root := froot size in
-        check (negb (root =? 0)) else P_divzero;
-        check (size mod root =? 0) else P_explicit;
+        check (root * root =? size) else P_explicit;
         Ok (STriple 1 root root, 1)
     | STriple ic _ _ => Ok (inputs, ic)
     | _ => Panic P_explicit
@@ -173,31 +175,6 @@ Section Layers.
                 then nadd N sum (nmul N (get4 zero ks f c h w) (get3 zero x c _h _w))
                 else sum) (seq 0 kw) sum) (seq 0 kh) sum) (seq 0 kc) zero)).
 
-  (* convolve_gradients(a, b, kernel) -> y[bc][ac][kh][kw]; note stride multiplies the kernel
-     offset and dilation multiplies the delta offset, exactly as written in the source *)
-  Definition convolve_gradients (stride dilation : nat * nat) (a b : vec3 T) (kernel : nat * nat)
-    : res (vec4 T) :=
-    do ahw <- xdims a;
-    let '(ah, aw) := ahw in
-    do bhw <- xdims b;
-    let '(bh, bw) := bhw in
-    Ok (build4 (length b) (length a) (fst kernel) (snd kernel) (fun i j k l =>
-          fold_left (fun sum m =>
-            fold_left (fun sum n =>
-              let _h := k * fst stride + m * fst dilation in
-              let _w := l * snd stride + n * snd dilation in
-              if (_h <? ah) && (_w <? aw)
-              then nadd N sum (nmul N (get3 zero a j _h _w) (get3 zero b i m n))
-              else sum) (seq 0 bw) sum) (seq 0 bh) zero)).
-
-  Definition rotate (k : vec3 T) : vec3 T := map (fun ch => rev (map (@rev T) ch)) k.
-
-  (* FxCxHxW -> CxFxHxW using the dimensions of kernels[0] *)
-  Definition rearrange (ks : vec4 T) : res (vec4 T) :=
-    do kd <- kdims ks;
-    let '(kf, kc, kh, kw) := kd in
-    Ok (build4 kc kf kh kw (fun c f h w => get4 zero ks f c h w)).
-
   Definition conv_input (inputs : shape) (x : tensor) : res (vec3 T) :=
     match tdata x with
     | DSingle v =>
@@ -221,35 +198,53 @@ Section Layers.
     do y <- convolve (c_stride l) (c_dilation l) xp ks;
     post_process (c_act l) (c_training l) (c_dropout l) (c_flatten l) y.
 
-  Definition kernel_hw (ks : list tensor) : res (nat * nat) :=
-    match ks with
-    | k :: _ => match tshape k with STriple _ h w => Ok (h, w) | _ => Panic P_explicit end
-    | [] => Panic P_index
-    end.
-
+  (* Both gradients are accumulated term by term over the forward sum (loops f, c, oy, ox, h, w):
+       igradient[c][y][x]    += delta[f][oy][ox] * K[f][c][h][w]
+       kgradient[f][c][h][w] += delta[f][oy][ox] * input[c][y][x]
+     with (y, x) = (oy*sh + h*dh - ph, ox*sw + w*dw - pw) when that lies inside the input.
+     Re-ordered per cell: for one input cell and one (f, oy, ox) at most one kernel tap (h, w)
+     contributes (dilation >= 1), so the contributions arrive in (f, oy, ox) order; for one kernel
+     cell they arrive in (oy, ox) order. *)
   Definition conv_backward (l : conv) (gradient input output : tensor)
     : res (tensor * tensor * option tensor) :=
     do g <- get_triple gradient (c_outputs l);
     do der0 <- act_backward (c_act l) output;
     do der <- get_triple der0 (c_outputs l);
     let delta := hadamard3d N g der (scale (c_loops l)) in
-    do khw <- kernel_hw (c_kernels l);
-    let '(kh, kw) := khw in
     do inp <- get_triple input (c_inputs l);
     do ihw <- xdims inp;
     let '(ih, iw) := ihw in
-    do dhw <- xdims delta;
-    let '(sh, sw) := c_stride l in
-    do ph <- csub (fst dhw + kh * sh) sh;
-    do pw <- csub (snd dhw + kw * sw) sw;
-    do inp_p <- pad3d N inp ph pw;
-    do kg <- convolve_gradients (c_stride l) (c_dilation l) inp_p delta (kh, kw);
+    do ohw <- xdims delta;
+    let '(oh, ow) := ohw in
     do ks <- mapM kernel_data (c_kernels l);
-    do ks' <- rearrange (map rotate ks);
-    do ph2 <- csub (ih * sh + kh) sh;
-    do pw2 <- csub (iw * sw + kw) sw;
-    do delta_p <- pad3d N delta ph2 pw2;
-    do ig <- convolve (c_stride l) (c_dilation l) delta_p ks';
+    do kd <- kdims ks;
+    let '(kf, kc, kh, kw) := kd in
+    let '(sh, sw) := c_stride l in
+    let '(dh, dw) := c_dilation l in
+    let '(ph, pw) := c_padding l in
+    check (kf <=? length delta) else P_index;
+    check (kc <=? length inp) else P_index;
+    let tap (o s d p k y : nat) : option nat :=
+      (* the kernel offset h with o*s + h*d - p = y, if any *)
+      if (o * s <=? y + p) && negb (d =? 0) && ((y + p - o * s) mod d =? 0) && ((y + p - o * s) / d <? k)
+      then Some ((y + p - o * s) / d) else None in
+    let ig := build3 kc ih iw (fun c y x =>
+      fold_left (fun acc f =>
+        fold_left (fun acc oy =>
+          fold_left (fun acc ox =>
+            match tap oy sh dh ph kh y, tap ox sw dw pw kw x with
+            | Some h, Some w =>
+                nadd N acc (nmul N (get3 zero delta f oy ox) (get4 zero ks f c h w))
+            | _, _ => acc
+            end) (seq 0 ow) acc) (seq 0 oh) acc) (seq 0 kf) zero) in
+    let kg := build4 kf kc kh kw (fun f c h w =>
+      fold_left (fun acc oy =>
+        fold_left (fun acc ox =>
+          if (ph <=? oy * sh + h * dh) && (oy * sh + h * dh - ph <? ih)
+             && (pw <=? ox * sw + w * dw) && (ox * sw + w * dw - pw <? iw)
+          then nadd N acc (nmul N (get3 zero delta f oy ox)
+                                  (get3 zero inp c (oy * sh + h * dh - ph) (ox * sw + w * dw - pw)))
+          else acc) (seq 0 ow) acc) (seq 0 oh) zero) in
     do igt <- t_triple N ig;
     do kgt <- t_quad N kg;
     Ok (igt, kgt, None).
@@ -289,9 +284,9 @@ Section Layers.
 
   Definition deconv_parameters (l : deconv) : res nat := kernels_parameters (dc_kernels l).
 
-  (* forward in usize arithmetic: (ih - 1) * stride - 2 * padding + kh *)
+  (* forward in usize arithmetic: (ih - 1) * stride + kh - 2 * padding *)
   Definition deconv_fwd_out1 (i k s p : nat) : res nat :=
-    do i1 <- csub i 1; do a <- csub (i1 * s) (2 * p); Ok (a + k).
+    do i1 <- csub i 1; csub (i1 * s + k) (2 * p).
 
   (* The six nested loops `y[k][oi][oj] += x[c][i][j] * K[k][c][ki][kj]` re-ordered per output
      cell: the contributions to one cell arrive in (c, i, j) order (ki, kj are then determined),
@@ -377,8 +372,7 @@ Section Layers.
     do inputs' <- match inputs with
                   | SSingle size =>
                       let root := froot size in
-                      check (negb (root =? 0)) else P_divzero;
-                      check (size mod root =? 0) else P_explicit;
+                      check (root * root =? size) else P_explicit;
                       Ok (STriple 1 root root)
                   | STriple _ _ _ => Ok inputs
                   | _ => Panic P_explicit
@@ -410,8 +404,10 @@ Section Layers.
     let '(oc, oh, ow) := oc_oh_ow in
     do xi <- match tdata x with
              | DSingle v =>
-                 (* the flat input is re-chunked with the OUTPUT height and width *)
-                 do d <- chunk_input v oh ow; Ok (d, oh, ow)
+                 match m_inputs l with
+                 | STriple _ h w => do d <- chunk_input v h w; Ok (d, h, w)
+                 | _ => Panic P_explicit
+                 end
              | DTriple d => do hw <- xdims d; Ok (d, fst hw, snd hw)
              | _ => Panic P_explicit
              end;
